@@ -15,8 +15,8 @@ import (
 	"strings"
 
 	"git.sr.ht/~rockorager/vaxis"
-	"git.sr.ht/~rockorager/vaxis/verifshim/vsched"
 	vpty "git.sr.ht/~rockorager/vaxis/verifshim/vpty"
+	"git.sr.ht/~rockorager/vaxis/verifshim/vsched"
 	"git.sr.ht/~rockorager/vaxis/widgets/term"
 	"verif.local/mc/schedrig"
 )
